@@ -55,7 +55,7 @@ var classOwners = map[string][]string{
 	// a call that should have failed but succeeded is an acceptance problem, not an
 	// error-classification problem
 	"ERR_MISSING": {"C01", "C02", "C08", "C12"},
-	"SKIP_LEN": {"C02", "C08"}, "SKIP_BYTES": {"C02", "C08"}, "REJECTED_VALID": {"C02", "C08"}, "READ_AHEAD": {"C02", "C08"}, "SKIP_STREAM_DESYNC": {"C02"},
+	"SKIP_LEN":    {"C02", "C08"}, "SKIP_BYTES": {"C02", "C08"}, "REJECTED_VALID": {"C02", "C08"}, "READ_AHEAD": {"C02", "C08"}, "SKIP_STREAM_DESYNC": {"C02"},
 	// region-list-model classes of the buffered writer
 	"SINK_MISMATCH": {"C05", "C14"}, "SINK_NOT_PREFIX": {"C05", "C14"}, "WRITTENLEN": {"C05", "C14"}, "REGION_LEN": {"C05", "C14"},
 	"ERR_NOT_RETURNED": {"C05", "C14"}, "ERR_NOT_STICKY": {"C05", "C14"}, "TARGET_MISMATCH": {"C05", "C14"}, "WRITEBINARY_SHORT": {"C05", "C14"},
